@@ -119,7 +119,14 @@ fn run(d: &mut Dec, cx: &mut Cx, native: bool) -> Res {
     let kind = d.u(0, ITEM_KINDS - 1);
     let dom = ItemDom { r: 12, max: if d.ratio(1, 4) { 24 } else { 10 }, max_width: 6, dotted: true, text_len: 8 };
     let converted = d.bool();
-    let item = if converted { AnyItem::C565(gen_item::<Rgb565>(d, kind, dom)) } else { AnyItem::C888(gen_item::<Rgb888>(d, kind, dom)) };
+    // (the fault enumeration is quadratic in the number of target calls: polylines keep <= 10 vertices here)
+    fn short<C: ImgCol>(mut it: Item<C>) -> Item<C> {
+        if let Item::Polyline(p) = &mut it {
+            p.pts.truncate(10);
+        }
+        it
+    }
+    let item = if converted { AnyItem::C565(short(gen_item::<Rgb565>(d, kind, dom))) } else { AnyItem::C888(short(gen_item::<Rgb888>(d, kind, dom))) };
     let depth = d.u(0, 2);
     let mut stack: Vec<Layer> = vec![];
     for _ in 0..depth {
